@@ -5,6 +5,7 @@ CONSTANTS
   Hosted = {0, 1}
   Vals = {1, 2}
   NsOf <- MCNs
+  Refused = {}
   RouteMulti = "perkey"
   OwnerShift = 0
   RejectUnhosted = TRUE
